@@ -97,6 +97,28 @@ Theorem C06_assign_record_resplits : forall rx am s t b,
 Proof. exact assign_record_resplits. Qed.
 Print Assumptions C06_assign_record_resplits.
 
+(* ... unconditionally: whatever the state before (fields split or not, same text or not,
+   flags set by earlier assignments or not), forcing the split of a freshly set record gives
+   exactly this state -- fields = split of the text alone, every per-field "true string" flag
+   false, NF = their number, FS/RS/input mode saved *)
+Theorem C06_set_record_resets : forall rx am s t b,
+  ensure_fields rx am (set_line rx s t b) =
+  do fl <- split_record rx am (fs rx s) (fs_re rx s) (inmode rx s) (rs rx s) t;
+  Ok (mkState rx t b fl (map (fun _ => false) fl) true (count_value (zlen fl))
+              (fs rx s) (fs_re rx s) (fs rx s) (fs_re rx s) (rs rx s) (inmode rx s)
+              (ofs rx s) (rs rx s) (inmode rx s) (outmode rx s)).
+Proof. exact set_record_resets. Qed.
+Print Assumptions C06_set_record_resets.
+
+(* ... so no field of a freshly set record is ever a "true string" for comparisons: the typing
+   probe (when $i is "10": is ($i < 9) the string or the numeric answer) never says string *)
+Theorem C06_record_fields_are_strnum : forall rx am s t b x s' w,
+  float_to_int x <> 0 ->
+  exec_op rx am (set_line rx s t b) (TypeOf rx (IConst x)) = Ok (s', w) ->
+  w = OTyp None \/ w = OTyp (Some false).
+Proof. exact typeof_after_record. Qed.
+Print Assumptions C06_record_fields_are_strnum.
+
 (* ---------------- $i = t ---------------- *)
 
 (* 1 <= i <= maxFieldIndex: intervening new fields empty, field i = t, $0 = the fields joined
@@ -299,6 +321,23 @@ Example C06_ex_huge_index :                  (* $(2^100) = "x" is the "too large
   (exists msg, xexec (set_line re xinit b_abc false) (SetField re (IConst (FFin 1 100)) [120]) = Err msg) /\
   (do (_, w) <- xexec (set_line re xinit b_abc false) (GetField re (IConst (FFin 1 100))); Ok w) = Ok (OVal []).
 Proof. split; [eexists|]; vm_compute; reflexivity. Qed.
+
+(* $1 = "x y"; $0 = $0 on "p q": the record is re-split, NF = 3 *)
+Example C06_ex_reassign_same_text :
+  (do s <- run re Regex.all_matches
+       [ReadRecord re [112; 32; 113]; SetField re (IConst (FFin 1 0)) [120; 32; 121];
+        ModField re (IConst (FFin 0 0)) (fun old => Ok (Some old))] xinit;
+   view re Regex.all_matches s)
+  = Ok ([120; 32; 121; 32; 113], [[120]; [121]; [113]], count_value 3).
+Proof. vm_compute. reflexivity. Qed.
+
+(* record "10 10"; $1 = "10" (a string now); next record "10 10": $1 is a strnum again *)
+Example C06_ex_flags_reset :
+  fst (trace re Regex.all_matches
+       [ReadRecord re [49; 48; 32; 49; 48]; SetField re (IConst (FFin 1 0)) [49; 48]; TypeOf re (IConst (FFin 1 0));
+        ReadRecord re [49; 48; 32; 49; 48]; TypeOf re (IConst (FFin 1 0))] xinit)
+  = [ONone; ONone; OTyp (Some true); ONone; OTyp (Some false)].
+Proof. vm_compute. reflexivity. Qed.
 
 (* the witnesses of the findings, on the executable model *)
 Example C06_ex_nf_2_7 :                      (* $0 = "a b c"; NF = 2.7  ->  NF reads 2.7, 2 fields *)
